@@ -123,6 +123,9 @@ pub struct Swarm {
     /// share of byte / text payload fields that get the storage-header magic "DLT\x01" embedded
     /// (legal content: a DLT stream logged inside a DLT stream, or plain chance)
     pub embed_magic_pct: usize,
+    /// a logger without a (fine) clock: every storage header of the run carries the same
+    /// timestamp and ECU id, so that consecutive records start with 16 identical bytes
+    pub fixed_storage_header: Option<(u32, u32, String)>,
 }
 
 impl Swarm {
@@ -134,7 +137,8 @@ impl Swarm {
         if kind_w.iter().all(|w| *w == 0) {
             kind_w[r.below(5)] = 1;
         }
-        let size_w = match r.below(6) {
+        let size_w = match r.below(7) {
+            6 => [2, 3, 2, 2],
             0 => [8, 1, 0, 0],
             1 => [4, 4, 1, 0],
             2 => [2, 4, 2, 0],
@@ -158,6 +162,12 @@ impl Swarm {
             multibyte_pct: *r.pick(&[0, 10, 50]),
             odd_msgtype_pct: *r.pick(&[0, 10, 40]),
             embed_magic_pct: *r.pick(&[0, 0, 0, 5, 30, 100]),
+            fixed_storage_header: if r.chance(1, 4) {
+                let secs = *r.pick(&[0u32, 0, 1, 0xffff_ffff, 1_700_000_000]);
+                Some((secs, *r.pick(&[0u32, 0, 999_999, 500_000]), if r.bool() { "ECU".to_string() } else { gen_id(r, 4) }))
+            } else {
+                None
+            },
         }
     }
     /// a narrow swarm for statistics: small id alphabets so that ids collide
@@ -233,18 +243,26 @@ fn payload_bytes(r: &mut Rng, sw: &Swarm, n: usize) -> Vec<u8> {
     b
 }
 
+fn bulk_size(r: &mut Rng, room: usize) -> usize {
+    match r.below(3) {
+        0 => room,
+        1 => (((1usize << (8 + r.below(9))) + r.below(9)).saturating_sub(4)).min(room),
+        _ => r.below(room + 1),
+    }
+}
+
 fn size_class(r: &mut Rng, sw: &Swarm, budget: usize) -> usize {
     let n = match r.weighted(&sw.size_w) {
         0 => r.below(9),
         1 => r.below(65),
         2 => r.below(1025),
-        _ => {
-            if r.chance(1, 3) {
-                budget
-            } else {
-                r.below(budget + 1)
-            }
-        }
+        _ => match r.below(4) {
+            0 => budget,
+            // just below / at / above a power of two (256 .. 65536): where buffers are grown,
+            // chunked and capped
+            1 => ((1usize << (8 + r.below(9))) + r.below(9)).saturating_sub(4),
+            _ => r.below(budget + 1),
+        },
     };
     n.min(budget)
 }
@@ -437,12 +455,14 @@ pub fn gen_argument(r: &mut Rng, sw: &Swarm, budget: usize) -> Option<Argument> 
         (None, None)
     };
     let value = match value {
+        // a bulk field fills what the message has room for (or stops at a power of two) one time
+        // in three: large arguments must not need two lucky draws
         Value::StringVal(_) => {
-            let k = size_class(r, sw, room);
+            let k = if room > 256 && r.chance(1, 3) { bulk_size(r, room) } else { size_class(r, sw, room) };
             Value::StringVal(gen_text(r, k, sw.multibyte_pct))
         }
         Value::Raw(_) => {
-            let n = size_class(r, sw, room);
+            let n = if room > 256 && r.chance(1, 3) { bulk_size(r, room) } else { size_class(r, sw, room) };
             Value::Raw(payload_bytes(r, sw, n))
         }
         v => v,
@@ -631,9 +651,12 @@ pub fn gen_message(r: &mut Rng, sw: &Swarm) -> (Message, &'static str) {
     };
     debug_assert!(payload_length <= max_payload);
     let storage_header = if sw.storage {
-        Some(StorageHeader {
-            timestamp: DltTimeStamp { seconds: r.u32(), microseconds: r.below(1_000_000) as u32 },
-            ecu_id: gen_id(r, sw.id_alphabet),
+        Some(match &sw.fixed_storage_header {
+            Some((s, us, id)) => StorageHeader { timestamp: DltTimeStamp { seconds: *s, microseconds: *us }, ecu_id: id.clone() },
+            None => StorageHeader {
+                timestamp: DltTimeStamp { seconds: r.u32(), microseconds: r.below(1_000_000) as u32 },
+                ecu_id: gen_id(r, sw.id_alphabet),
+            },
         })
     } else {
         None
@@ -757,7 +780,7 @@ pub fn gen_foreign_record(r: &mut Rng, storage: bool) -> Rec {
                     ti |= (r.below(8) as u32) << 15; // coding bits on raw
                 }
                 w32(be, ti, &mut payload);
-                let n = r.below(20);
+                let n = if r.chance(1, 12) { *r.pick(&[4095usize, 4096, 4097, 9000]) } else { r.below(20) };
                 w16(be, n as u16, &mut payload);
                 payload.extend(r.bytes(n));
             }
@@ -767,9 +790,27 @@ pub fn gen_foreign_record(r: &mut Rng, storage: bool) -> Rec {
             if (msin >> 1) & 7 == 2 {
                 msin &= !(0x2 << 1); // keep network trace for flavours 0/1
             }
-            noar = 1 + r.below(4) as u8;
-            for _ in 0..noar {
-                match r.below(8) {
+            let want = 1 + r.below(4) as u8;
+            noar = 0;
+            for _ in 0..want {
+                if payload.len() > 40_000 {
+                    break; // keep the total below the 16-bit length field
+                }
+                noar += 1;
+                match r.below(9) {
+                    8 => {
+                        // plain raw (no VARI) with TRAI and / or coding bits, small or bulk: bits
+                        // the crate's writer never sets on raw data, sizes where writers switch paths
+                        let mut ti: u32 = 1 << 10;
+                        if r.bool() {
+                            ti |= 1 << 13;
+                        }
+                        ti |= (r.below(8) as u32) << 15;
+                        w32(be, ti, &mut payload);
+                        let n = *r.pick(&[0usize, 1, 7, 255, 256, 4095, 4096, 4097, 8192, 20_000]);
+                        w16(be, n as u16, &mut payload);
+                        payload.extend(r.bytes(n));
+                    }
                     0 => {
                         // bool with TYLE=1
                         let mut ti: u32 = (1 << 4) | 1;
